@@ -182,13 +182,14 @@ package ro
 //@   ensures [delegates-to-add|C03,C14] unsubscribable != nil ==> trace(call.subscriptionImpl.Add(s, _))
 
 //@ func (*subscriptionImpl).Unsubscribe
-//@   props C03 C06 C14
+//@   note the finalizers run in registration order: Wait registers its wake-up last, so that a re-subscribing operator (C15) only starts the next attempt once the previous one has been torn down
+//@   props C03 C06 C14 C15
 //@   maypanic
 //@   track call.execFinalizer loop.* callfn.*
 //@   ensures [closes|C03,C06] atunlock(done) == true
 //@   ensures [second-call-is-noop|C03] atlock(done) ==> trace()
 //@   ensures [batch-taken-once|C03] !atlock(done) ==> len(atunlock(finalizers)) == 0
-//@   ensures [runs-whole-batch|C03,C14] !atlock(done) && len(atlock(finalizers)) > 0 ==> trace(loop.L0)
+//@   ensures [runs-whole-batch|C03,C14,C15] !atlock(done) && len(atlock(finalizers)) > 0 ==> trace(loop.L0)
 //@   ensures [finalizers-run-unlocked|C03,C06] notheldat(mu, call.execFinalizer) && notheldat(mu, loop.L0)
 //@   ensures [panic-only-after-all-ran|C03] panics ==> called(loop.L0)
 
@@ -212,11 +213,11 @@ package ro
 //@   ensures [reads-done-under-lock|C06] result == atlock(done)
 
 //@ func (*subscriptionImpl).Wait
-//@   props C06
+//@   props C06 C15
 //@   binds s
 //@   maypanic
 //@   track chmake chrecv.* chclose.* chsend.* call.*
-//@   ensures [waits-for-own-finalizer|C06] trace(chmake(1), call.subscriptionImpl.Add(s, _), chrecv.ch, chclose.ch)
+//@   ensures [waits-for-own-finalizer|C06,C15] trace(chmake(1), call.subscriptionImpl.Add(s, _), chrecv.ch, chclose.ch)
 
 //@ func (*subscriptionImpl).Wait$1
 //@   props C06
